@@ -30,7 +30,7 @@ impl Scenario for C18 {
         "C18"
     }
     fn rule(&self) -> String {
-        "Seeded sessions: 1-4 publisher threads (20-150 messages each, bodies up to 2 frames) plus the owner opening a channel and publishing on it while throttled; tuning drawn from mem_channel_bound in {0,1,2,16}, high-water in {1000, 8000, 64000}, low-water in {0, high/2}; 1-3 write stalls of 5-60 ms of simulated time during which the transport grants no budget, short writes in between. Oracle (a), only under I/O-atomic schedules (the I/O thread is not preempted inside one poll batch, because the code checks the high-water mark between batches): at every millisecond of every stall, bytes accepted from completed publish calls minus bytes written <= high_water + 2*N*(bound+1)*frame_max. Oracle (b), under all schedules: after the last stall every publisher finishes (else the hang detector names the lost wake-up) and the wire carries every accepted message exactly once, per channel in order (C01's wire oracle). Non-trivial = the throttle had to engage: total volume > 2x the bound of (a) and the stall outlasted the publishers' progress; distinct = schedule trace hash.".to_string()
+        "Seeded sessions: 1-4 publisher threads (20-150 messages each, bodies up to 2 frames) plus the owner opening a channel and publishing on it while throttled; in a fifth of the runs the server closes the only publishing channel while throttled and a channel is opened after the transport has drained; tuning drawn from mem_channel_bound in {0,1,2,16}, high-water in {1000, 8000, 64000}, low-water in {0, high/2}; 1-3 write stalls of 5-60 ms of simulated time during which the transport grants no budget, short writes in between. Oracle (a), only under I/O-atomic schedules (the I/O thread is not preempted inside one poll batch, because the code checks the high-water mark between batches): at every millisecond of every stall, bytes accepted from completed publish calls minus bytes written <= high_water + 2*N*(bound+1)*frame_max. Oracle (b), under all schedules: after the last stall every publisher finishes (else the hang detector names the lost wake-up) and the wire carries every accepted message exactly once, per channel in order (C01's wire oracle). Non-trivial = the throttle had to engage: total volume > 2x the bound of (a) and the stall outlasted the publishers' progress; distinct = schedule trace hash.".to_string()
     }
     fn assumptions(&self) -> Vec<String> {
         vec!["the numeric bound is asserted only under I/O-atomic schedules; under free schedules publishers can refill a channel while the I/O thread drains it, which the code does not bound (DESIGN.md §7 C18)".into()]
@@ -41,7 +41,10 @@ impl Scenario for C18 {
     fn run_case(&self, spec: &CaseSpec, text: bool) -> CaseReport {
         let mut cs = spec.stream();
         let frame_max = 4096usize;
-        let n_pub = 1 + cs.choose("n_publishers", 4) as usize;
+        // variant: the server closes the only publishing channel while the connection is throttled, the
+        // transport then drains with no channel open, and a channel opened afterwards must still work
+        let close_only_channel = cs.choose("close_only_channel", 5) == 0;
+        let n_pub = if close_only_channel { 1 } else { 1 + cs.choose("n_publishers", 4) as usize };
         let bound = *pick(&mut cs, "bound", &[1usize, 2, 16, 0]);
         let high = *pick(&mut cs, "high", &[1000usize, 8000, 64000]);
         let low = if cs.choose("low_half", 2) == 1 { high / 2 } else { 0 };
@@ -74,7 +77,12 @@ impl Scenario for C18 {
         }
         // the owner opens a channel while throttled and publishes on it
         let mut owner_ops = Vec::new();
-        if cs.choose("owner_channel", 2) == 1 {
+        if close_only_channel {
+            let last = stalls.last().unwrap().1;
+            owner_ops.push(OwnerOp::SleepNs(last + 5_000_000));
+            owner_ops.push(OwnerOp::OpenChannel { id: None, keep: true });
+            owner_ops.push(OwnerOp::PublishKept { nth: 0, count: 3, len: 500 });
+        } else if cs.choose("owner_channel", 2) == 1 {
             owner_ops.push(OwnerOp::SleepNs(stalls[0].0 + 2_000_000));
             owner_ops.push(OwnerOp::OpenChannel { id: None, keep: true });
             owner_ops.push(OwnerOp::PublishKept { nth: 0, count: 5 + cs.choose("owner_msgs", 20) as usize, len: 3000 });
@@ -82,6 +90,8 @@ impl Scenario for C18 {
         let plan = SessionPlan { opts: ConnOpts { frame_max: 4096, ..ConnOpts::default() }, tuning: Tuning { bound, high, low }, threads, owner_ops, close: CloseKind::Close, join_before_close: true };
         let mut broker = BrokerCfg::default();
         broker.tune = (2047, 4096, 0);
+        broker.s2c_lat_min_ns = 1_000;
+        broker.s2c_lat_max_ns = 1_000;
         let mut net = NetCfg::default();
         net.c2s_lat_min_ns = 1_000;
         net.c2s_lat_max_ns = 1_000;
@@ -91,6 +101,10 @@ impl Scenario for C18 {
         sched.io_atomic = io_atomic;
         sched.hang_after_ns = 20_000_000_000;
         sched.step_cap = 1_500_000;
+        if close_only_channel {
+            // a few milliseconds into the first stall the throttle has engaged
+            broker.script.push((crate::broker::Trigger::AtTime(stalls[0].0 + 3_000_000), crate::broker::Action::CloseChannel { ch: 1, code: 404, text: "NOT_FOUND-gone".into() }));
+        }
         let gen = Generated { plan, net, broker, sched, frame_max };
         let stalls2 = stalls.clone();
         let (res, world) = run_generated(&gen, cs, text, move |_| {
@@ -120,14 +134,27 @@ impl Scenario for C18 {
         }
         for o in &res.hist.ops {
             if let OpResult::Err(e) = &o.result {
+                if close_only_channel && o.thread == 1 {
+                    continue; // the server closed that channel
+                }
                 rep.violate("publish-error", "error", format!("publish failed with {}", e));
                 return rep;
             }
         }
+        for c in &res.hist.conn {
+            if let ConnRec::OpenChannel { for_thread: 0, result: Err(e), .. } = c {
+                rep.violate("no-resume", "open-channel-after-stall", format!("open_channel after the stall failed with {}", e));
+                return rep;
+            }
+        }
+        rep.count("c18.close_only_channel_variant", close_only_channel as u64);
         // (a) the bound, sampled every millisecond of every stall
         let limit = high + 2 * (n_pub + 1) * (bound + 1) * frame_max;
         let mut pubs: Vec<(u64, usize)> = Vec::new(); // (ret_ns, bytes)
         for o in &res.hist.ops {
+            if o.result != OpResult::Unit {
+                continue;
+            }
             if let Op::Publish { exchange, rk, mandatory, immediate, props, body_len, .. } = &o.op {
                 let body = make_body(&o.mark, *body_len);
                 let fr = publish_frames(exchange, rk, *mandatory, *immediate, make_props(*props, &o.mark), &body, frame_max);
@@ -162,7 +189,9 @@ impl Scenario for C18 {
         rep.count("c18.max_outstanding_bytes", 0);
         rep.count("c18.throttle_engaged", engaged as u64);
         rep.count("c18.io_atomic_runs", io_atomic as u64);
-        if io_atomic && worst > limit {
+        // (when the server closed the publishing channel, what that channel had accepted is legitimately
+        // dropped, so "accepted minus written" is not a buffer measure in that variant)
+        if io_atomic && !close_only_channel && worst > limit {
             rep.violate("buffer-bound", "exceeded", format!("bound {} high {} publishers {}: at {} ns (transport stalled) {} bytes of completed publishes were not yet written; limit high + 2*N*(bound+1)*frame_max = {}", bound, high, n_pub, worst_at, worst, limit));
             return rep;
         }
